@@ -67,6 +67,10 @@ End R.
 #[global] Hint Rewrite @r_compute_y : rfn.
 #[global] Hint Rewrite @r_generate_timestamp_based_y : rfn.
 #[global] Hint Rewrite @r_pok_verify : rfn.
+#[global] Hint Rewrite @r_generate_commitment : rfn.
+#[global] Hint Rewrite @r_generate_proof : rfn.
+#[global] Hint Rewrite @r_generate_timestamp_proof : rfn.
+#[global] Hint Rewrite @r_verify_timestamp_proof : rfn.
 Print Assumptions r_generate_commitment.
 Print Assumptions r_compute_y.
 Print Assumptions r_generate_timestamp_based_y.
